@@ -154,8 +154,9 @@ def loopback(ctx, res):
     from puresnmp.exc import Timeout
     from puresnmp.transport import Endpoint, send_udp
 
-    async def scenario(behaviour, retries):
+    async def scenario(behaviour, retries, host="127.0.0.1"):
         loop = asyncio.get_running_loop()
+        fam = socket.AF_INET6 if ":" in host else socket.AF_INET
         got = []
 
         class Responder(asyncio.DatagramProtocol):
@@ -176,18 +177,18 @@ def loopback(ctx, res):
                     loop.call_later(0.12, self.transport.sendto, b"L" + data[:8], addr)
 
         if behaviour == ["closed"]:
-            s = socket.socket(socket.AF_INET, socket.SOCK_DGRAM)
-            s.bind(("127.0.0.1", 0))
+            s = socket.socket(fam, socket.SOCK_DGRAM)
+            s.bind((host, 0))
             port = s.getsockname()[1]
             s.close()
             server = None
         else:
-            server, _ = await loop.create_datagram_endpoint(Responder, local_addr=("127.0.0.1", 0))
+            server, _ = await loop.create_datagram_endpoint(Responder, local_addr=(host, 0))
             port = server.get_extra_info("sockname")[1]
         await asyncio.sleep(0)
         before = fd_count()
         try:
-            data = await send_udp(Endpoint("127.0.0.1", port), PACKET, timeout=0.05, retries=retries)
+            data = await send_udp(Endpoint(host, port), PACKET, timeout=0.05, retries=retries)
             result = ["ok", bytes(data)[:1].decode()]
         except Timeout:
             result = ["error", "timeout"]
@@ -201,16 +202,44 @@ def loopback(ctx, res):
             server.close()
         return {"result": result, "sends": len(got), "same": all(g == PACKET for g in got), "fd_delta": after - before}
 
+    import logging
+
+    try:
+        _s6 = socket.socket(socket.AF_INET6, socket.SOCK_DGRAM)
+        _s6.bind(("::1", 0))
+        _s6.close()
+        hosts = ["127.0.0.1", "::1"]
+    except OSError:
+        hosts = ["127.0.0.1"]
+        res.count("loopback:no-ipv6")
     cases = [(["empty", "reply"], 3), (["reply"], 3), (["none", "reply"], 3), (["none"], 2), (["late", "reply"], 3), (["two"], 2), (["closed"], 3), (["none", "none", "reply"], 3), (["late"], 1)]
-    for behaviour, retries in cases * ctx.budget(1, 5):
+    # both address families, and with the library's loggers at DEBUG (what is sent and returned must
+    # not depend on the log level of the application)
+    plan = [(b, r, "127.0.0.1", False) for b, r in cases * ctx.budget(1, 5)]
+    plan += [(b, r, h, d) for (b, r) in cases[:4] + cases[6:7] for h in hosts for d in (False, True) if (h, d) != ("127.0.0.1", False)]
+    for behaviour, retries, host, debug in plan:
+        lg = logging.getLogger("puresnmp")
+        old = (lg.level, lg.propagate, logging.root.manager.disable)
+        handler = logging.NullHandler()
+        if debug:
+            logging.disable(logging.NOTSET)
+            lg.addHandler(handler)
+            lg.setLevel(logging.DEBUG)
+            lg.propagate = False
         loop = asyncio.new_event_loop()
         try:
-            obs = loop.run_until_complete(scenario(behaviour, retries))
+            obs = loop.run_until_complete(scenario(behaviour, retries, host))
         finally:
             loop.close()
+            if debug:
+                lg.removeHandler(handler)
+                lg.setLevel(old[0])
+                lg.propagate = old[1]
+                logging.disable(old[2])
         res.evaluations += 1
         res.count("loopback:" + "+".join(behaviour))
-        case = {"loopback": behaviour, "retries": retries}
+        res.count(f"loopback-family:{'v6' if ':' in host else 'v4'}:{'debug' if debug else 'quiet'}")
+        case = {"loopback": behaviour, "retries": retries, "host": host, "debug_logging": debug}
         if obs["fd_delta"] != 0:
             res.violate("loopback", case, "no descriptor left", obs, f"{obs['fd_delta']} file descriptor(s) left open after the call ended with {obs['result']}", {"kind": "udp", "what": "socket-left-open", "after": obs["result"][1] if obs["result"][0] == "error" else "ok"})
         if behaviour != ["closed"]:
